@@ -4,7 +4,7 @@
 From Coq Require Import ZArith List Bool Lia.
 Import ListNotations.
 From SZ Require Import Lib.Py Gen.Utils Gen.Reader Gen.Producer Spec.Container Proofs.PyLemmas Proofs.Layout Proofs.Enum
-  Model.Writer.
+  Proofs.Tiling Model.Writer.
 Open Scope Z_scope.
 
 Definition uidx (H : hdr) (u : Z * Z * Z) : Z := match u with (iu, xu, zu) => unit_index3 H iu xu zu end.
@@ -151,4 +151,256 @@ Proof.
   assert (A2 : s_PZ H / 4 = nbz * u2) by (rewrite E2, B2; replace (nbz * (4 * u2)) with (nbz * u2 * 4) by ring; apply Z_div_mult; lia).
   rewrite A0, A1, A2. unfold U. ring.
 Qed.
+
+(* ---------- every written unit lies in the padded unit grid ---------- *)
+Definition in_ugrid (u : Z * Z * Z) : Prop :=
+  match u with (iu, xu, zu) => 0 <= iu < s_PI H / 4 /\ 0 <= xu < s_PX H / 4 /\ 0 <= zu < s_PZ H / 4 end.
+
+Lemma P4 : s_PI H / 4 = nps * u0 /\ s_PX H / 4 = nbx * u1 /\ s_PZ H / 4 = nbz * u2.
+Proof.
+  destruct bs_u as (B0 & B1 & B2). destruct P_nb as (E0 & E1 & E2).
+  repeat split.
+  - rewrite E0, B0; replace (nps * (4 * u0)) with (nps * u0 * 4) by ring; apply Z_div_mult; lia.
+  - rewrite E1, B1; replace (nbx * (4 * u1)) with (nbx * u1 * 4) by ring; apply Z_div_mult; lia.
+  - rewrite E2, B2; replace (nbz * (4 * u2)) with (nbz * u2 * 4) by ring; apply Z_div_mult; lia.
+Qed.
+
+Lemma region_units_in (r : region) u : In u (units_of_region r) ->
+  match u with (iu, xu, zu) => r_i0 r / 4 <= iu < r_i0 r / 4 + r_ni r / 4 /\ r_x0 r / 4 <= xu < r_x0 r / 4 + r_nx r / 4 /\
+                               r_z0 r / 4 <= zu < r_z0 r / 4 + r_nz r / 4 end.
+Proof.
+  unfold units_of_region. intro Hin. apply in_flat_map in Hin. destruct Hin as (a & Ha & Hin).
+  apply in_flat_map in Hin. destruct Hin as (b & Hb & Hin). apply in_map_iff in Hin. destruct Hin as (c & <- & Hc).
+  apply in_zrange in Ha, Hb, Hc. lia.
+Qed.
+
+Lemma div4_mul q u : (q * (4 * u)) / 4 = q * u.
+Proof. replace (q * (4 * u)) with (q * u * 4) by ring. apply Z_div_mult. lia. Qed.
+
+Lemma canon_in_grid u : In u (flat_map units_of_region (flat_map canon_regions_of_set (zrange 0 nps))) -> in_ugrid u.
+Proof.
+  destruct u_pos as (U0 & U1 & U2). destruct bs_u as (B0 & B1 & B2). destruct P4 as (Q0 & Q1 & Q2).
+  destruct P_nb as (E0 & E1 & E2).
+  intro Hin. apply in_flat_map in Hin. destruct Hin as (r & Hr & Hu). apply in_flat_map in Hr. destruct Hr as (p & Hp & Hr).
+  apply in_zrange in Hp. apply region_units_in in Hu. destruct u as [[iu xu] zu]. unfold in_ugrid.
+  unfold canon_regions_of_set in Hr. destruct ((s_bs0 H =? 4) && (s_bs1 H =? 4)) eqn:Sw.
+  - destruct Hr as [<- | []]. cbn [r_i0 r_x0 r_z0 r_ni r_nx r_nz] in Hu. change (0 / 4) with 0 in Hu.
+    rewrite B0 in Hu at 1. rewrite div4_mul in Hu. rewrite B0 in Hu at 1. rewrite div4_mul in Hu.
+    replace (s_bs0 H / 4) with u0 in Hu by reflexivity. rewrite Q0, Q1, Q2. rewrite Q1, Q2 in Hu. nia.
+  - apply in_flat_map in Hr. destruct Hr as (x & Hx & Hr). apply in_map_iff in Hr. destruct Hr as (z & <- & Hz).
+    apply in_zrange in Hx, Hz. cbn [r_i0 r_x0 r_z0 r_ni r_nx r_nz] in Hu.
+    rewrite B0 in Hu at 1. rewrite div4_mul in Hu. rewrite B0 in Hu at 1. rewrite div4_mul in Hu.
+    rewrite B1 in Hu at 1. rewrite div4_mul in Hu. rewrite B1 in Hu at 1. rewrite div4_mul in Hu.
+    rewrite B2 in Hu at 1. rewrite div4_mul in Hu. rewrite B2 in Hu at 1. rewrite div4_mul in Hu.
+    fold u0 u1 u2 in Hu. rewrite Q0, Q1, Q2. nia.
+Qed.
+
+Lemma uidx_is_tiling iu xu zu : unit_index3 H iu xu zu = tuidx u0 u1 u2 nbx nbz iu xu zu.
+Proof. reflexivity. Qed.
+
+(* THE POSITION THEOREM: the unit the specification places at index k = unit_index3 (iu,xu,zu) is the k-th unit written *)
+Theorem canon_written_at iu xu zu : in_ugrid (iu, xu, zu) ->
+  nth_error (flat_map units_of_region (flat_map canon_regions_of_set (zrange 0 nps)))
+            (Z.to_nat (unit_index3 H iu xu zu)) = Some (iu, xu, zu).
+Proof.
+  intro G. destruct u_pos as (U0 & U1 & U2). destruct nb_pos as (N0 & N1 & N2). destruct P4 as (Q0 & Q1 & Q2).
+  set (l := flat_map units_of_region (flat_map canon_regions_of_set (zrange 0 nps))).
+  pose proof canon_enum as EN. fold l in EN.
+  assert (GB : 0 <= unit_index3 H iu xu zu < nps * nbx * nbz * (u0 * u1 * u2)).
+  { rewrite uidx_is_tiling. apply tuidx_bound; try lia. unfold in_ugrid in G. unfold in_grid. rewrite <- Q0, <- Q1, <- Q2. exact G. }
+  set (k := unit_index3 H iu xu zu) in *.
+  assert (LEN : length l = Z.to_nat (nps * (nbx * nbz * U))).
+  { rewrite <- (map_length (uidx H)), EN, zrange_length. f_equal. lia. }
+  destruct (nth_error l (Z.to_nat k)) as [u'|] eqn:NE.
+  2:{ apply nth_error_None in NE. unfold U in LEN. nia. }
+  assert (KU : uidx H u' = k).
+  { pose proof (map_nth_error (uidx H) _ _ NE) as M. rewrite EN in M.
+    unfold zrange in M. clear - M GB.
+    assert (forall n lo j v, nth_error (zrange_nat lo n) j = Some v -> v = lo + Z.of_nat j) as Z1.
+    { induction n as [|n IH]; intros lo j v; destruct j; cbn [zrange_nat nth_error]; try congruence.
+      - intro E; inversion E; lia.
+      - intro E. apply IH in E. lia. }
+    apply Z1 in M. lia. }
+  assert (GU : in_ugrid u') by (apply canon_in_grid; eapply nth_error_In; exact NE).
+  destruct u' as [[iu' xu'] zu']. cbn [uidx] in KU. unfold k in KU. rewrite !uidx_is_tiling in KU.
+  apply (tuidx_inj u0 u1 u2 nps nbx nbz U0 U1 U2) in KU.
+  - destruct KU as (-> & -> & ->). reflexivity.
+  - unfold in_grid. unfold in_ugrid in GU. rewrite <- Q0, <- Q1, <- Q2. exact GU.
+  - unfold in_grid. unfold in_ugrid in G. rewrite <- Q0, <- Q1, <- Q2. exact G.
+Qed.
+
+(* ---------- the generated producers are the canonical enumeration ---------- *)
+Local Notation n_il := (s_nil H).
+Local Notation n_xl := (s_nxl H).
+Local Notation ns := (s_ns H).
+Local Notation b0 := (s_bs0 H).
+Local Notation b1 := (s_bs1 H).
+Local Notation b2 := (s_bs2 H).
+
+Lemma gen_pad : pad n_il b0 = s_PI H /\ pad n_xl b1 = s_PX H /\ pad ns b2 = s_PZ H.
+Proof.
+  pose proof (f_bs0 H F). pose proof (f_bs1 H F). pose proof (f_bs2 H F).
+  unfold s_PI, s_PX, s_PZ. rewrite !pad_is_pad_to by lia. repeat split.
+Qed.
+
+(* a plane set p < nps that is "last" holds exactly the n_il mod bs0 remaining planes *)
+Lemma last_set_rows p : 0 <= p < nps -> (p + 1) * b0 > n_il -> n_il mod b0 = n_il - p * b0 /\ 0 < n_il - p * b0 < b0.
+Proof.
+  intros Hp Hl. destruct P_nb as (E0 & _ & _). destruct (f_PI H F) as (A & _ & _ & _).
+  pose proof (pad_to_spec (s_nil H) (s_bs0 H) ltac:(pose proof (f_bs0 H F); lia)) as (S1 & _ & _). fold (s_PI H) in S1.
+  pose proof (f_bs0 H F) as B.
+  assert (P1 : p * b0 <= (nps - 1) * b0) by nia.
+  assert (R : 0 < n_il - p * b0 < b0) by nia.
+  split; [|exact R]. symmetry. apply (Z.mod_unique_pos n_il b0 p (n_il - p * b0)); lia.
+Qed.
+
+Lemma np_set_canon p : 0 <= p < nps -> np_regions_of_set n_il n_xl ns b0 b1 b2 p = canon_regions_of_set p.
+Proof.
+  intro Hp. destruct gen_pad as (G0 & G1 & G2). destruct P_nb as (E0 & E1 & E2). pose proof (f_bs0 H F) as B0.
+  pose proof (f_bs1 H F) as B1. pose proof (f_bs2 H F) as B2.
+  assert (S0 : np_buf_shape0 n_il n_xl ns b0 b1 b2 p = b0).
+  { unfold np_buf_shape0, np_buf_rows, np_row_hi, np_row_lo, np_padw_i, np_last_set.
+    destruct ((p + 1) * b0 >? n_il) eqn:L.
+    - destruct (last_set_rows p Hp ltac:(lia)) as (M & R). lia.
+    - lia. }
+  assert (S1 : np_buf_shape1 n_il n_xl ns b0 b1 b2 p = s_PX H).
+  { unfold np_buf_shape1, np_padw_x. rewrite G1. destruct (np_last_set _ _ _ _ _ _ _); lia. }
+  assert (S2 : np_buf_shape2 n_il n_xl ns b0 b1 b2 p = s_PZ H).
+  { unfold np_buf_shape2, np_padw_z. rewrite G2. destruct (np_last_set _ _ _ _ _ _ _); lia. }
+  unfold np_regions_of_set, canon_regions_of_set. rewrite S0, S1, S2.
+  unfold np_whole_set. destruct ((b0 =? 4) && (b1 =? 4)); [reflexivity|].
+  unfold np_nblocks_x, np_nblocks_z. rewrite G1, G2. fold nbx nbz.
+  apply flat_map_ext_in. intros x Hx. apply in_zrange in Hx. apply map_ext_in. intros z Hz. apply in_zrange in Hz.
+  unfold np_block_x_lo, np_block_x_hi, np_block_z_lo, np_block_z_hi.
+  f_equal; nia.
+Qed.
+
+Theorem np_regions_canon : np_regions n_il n_xl ns b0 b1 b2 = flat_map canon_regions_of_set (zrange 0 nps).
+Proof.
+  unfold np_regions, np_n_plane_sets. destruct gen_pad as (G0 & _ & _). rewrite G0. fold nps.
+  apply flat_map_ext_in. intros p Hp. apply in_zrange in Hp. apply np_set_canon. exact Hp.
+Qed.
+
+Lemma sf_set_canon p : 0 <= p < nps -> sf_regions_of_set n_il n_xl ns b0 b1 b2 p = canon_regions_of_set p.
+Proof.
+  intro Hp. destruct gen_pad as (G0 & G1 & G2). destruct P_nb as (E0 & E1 & E2).
+  pose proof (f_bs1 H F) as B1. pose proof (f_bs2 H F) as B2.
+  unfold sf_regions_of_set, canon_regions_of_set, sf_padded1, sf_padded2. rewrite G1, G2.
+  unfold sf_whole_set. destruct ((b0 =? 4) && (b1 =? 4)); [reflexivity|].
+  unfold sf_nblocks_x, sf_nblocks_z. rewrite G1, G2. fold nbx nbz.
+  apply flat_map_ext_in. intros x Hx. apply in_zrange in Hx. apply map_ext_in. intros z Hz. apply in_zrange in Hz.
+  unfold sf_block_x_lo, sf_block_x_hi, sf_block_z_lo, sf_block_z_hi.
+  f_equal; nia.
+Qed.
+
+Theorem sf_regions_canon : sf_regions n_il n_xl ns b0 b1 b2 = flat_map canon_regions_of_set (zrange 0 nps).
+Proof.
+  unfold sf_regions, sf_n_plane_sets. destruct gen_pad as (G0 & _ & _). rewrite G0. fold nps.
+  apply flat_map_ext_in. intros p Hp. apply in_zrange in Hp. apply sf_set_canon. exact Hp.
+Qed.
+
+(* ---------- every cell of the padded cube holds the edge-replicated source sample ---------- *)
+Lemma set_of_row i : 0 <= i < s_PI H -> 0 <= i / b0 < nps /\ i = (i / b0) * b0 + i mod b0 /\ 0 <= i mod b0 < b0.
+Proof.
+  intro Hi. pose proof (f_bs0 H F) as B.  destruct P_nb as (E0 & _ & _). 
+  pose proof (Z.div_mod i b0 ltac:(lia)) as DM. pose proof (Z.mod_pos_bound i b0 ltac:(lia)) as MB.
+  repeat split; try lia.
+  - apply Z.div_pos; lia.
+  - apply Z.div_lt_upper_bound; lia.
+Qed.
+
+Theorem np_cell_src_edge i x z : 0 <= i < s_PI H ->
+  np_cell_src n_il n_xl ns b0 b1 b2 i x z = edge_src n_il n_xl ns i x z.
+Proof.
+  intro Hi. destruct (set_of_row i Hi) as (Hp & Ei & Ha). set (p := i / b0) in *. set (a := i mod b0) in *.
+  unfold np_cell_src, np_buf_src, edge_src. fold p a.
+  apply (f_equal2 pair); [apply (f_equal2 pair); [|reflexivity] | reflexivity].
+  unfold np_buf_rows, np_row_hi, np_row_lo, np_last_set. destruct ((p + 1) * b0 >? n_il) eqn:L.
+  - destruct (last_set_rows p Hp ltac:(lia)) as (M & R). lia.
+  - lia.
+Qed.
+
+Theorem sf_cell_src_edge minimal i x z : 0 <= i < s_PI H -> 0 <= x -> 0 <= z ->
+  sf_cell_src n_il n_xl ns b0 b1 b2 minimal i x z = edge_src n_il n_xl ns i x z.
+Proof.
+  intros Hi Hx Hz. destruct (set_of_row i Hi) as (Hp & Ei & Ha). set (p := i / b0) in *. set (a := i mod b0) in *.
+  pose proof (f_nxl H F) as NX. pose proof (f_ns H F) as NS.
+  unfold sf_cell_src, sf_buf_src, sf_row_line, edge_src. fold p a.
+  unfold io_min_line, io_seg_line, io_xpad_from, io_xpad_src, io_zpad_from, io_zpad_src, io_xl_lo, sf_planes_to_read.
+  assert (ROW : (if a <? (if (p + 1) * b0 >? n_il then n_il mod b0 else b0) then p * b0 + a
+                 else p * b0 + (if (p + 1) * b0 >? n_il then n_il mod b0 else b0) - 1) = Z.min i (n_il - 1)).
+  { destruct ((p + 1) * b0 >? n_il) eqn:L.
+    - destruct (last_set_rows p Hp ltac:(lia)) as (M & R). rewrite M. destruct (a <? n_il - p * b0) eqn:Q; lia.
+    - destruct (a <? b0) eqn:Q; lia. }
+  apply (f_equal2 pair); [apply (f_equal2 pair)|].
+  - destruct minimal.
+    + rewrite <- ROW. destruct ((p + 1) * b0 >? n_il); destruct (a <? _); lia.
+    + rewrite <- ROW. destruct ((p + 1) * b0 >? n_il); destruct (a <? _); lia.
+  - destruct minimal; destruct (x <? n_xl) eqn:Q; destruct (a <? _); lia.
+  - destruct (z <? ns) eqn:Q; lia.
+Qed.
 End WRITER.
+
+(* ---------- corollaries about the generated producers themselves ---------- *)
+Definition dims_np (H : hdr) := np_written_units (s_nil H) (s_nxl H) (s_ns H) (s_bs0 H) (s_bs1 H) (s_bs2 H).
+Definition dims_sf (H : hdr) := sf_written_units (s_nil H) (s_nxl H) (s_ns H) (s_bs0 H) (s_bs1 H) (s_bs2 H).
+Definition data_units (H : hdr) : Z := (s_PI H / 4) * (s_PX H / 4) * (s_PZ H / 4).
+
+Lemma np_unit_order H : wf3 H = true -> map (uidx H) (dims_np H) = zrange 0 (data_units H).
+Proof.
+  intro W. unfold dims_np, np_written_units. rewrite (np_regions_canon H W). rewrite (canon_enum H W).
+  f_equal. apply total_units. exact W.
+Qed.
+Lemma sf_unit_order H : wf3 H = true -> map (uidx H) (dims_sf H) = zrange 0 (data_units H).
+Proof.
+  intro W. unfold dims_sf, sf_written_units. rewrite (sf_regions_canon H W). rewrite (canon_enum H W).
+  f_equal. apply total_units. exact W.
+Qed.
+Lemma np_unit_at H : wf3 H = true -> forall iu xu zu, 0 <= iu < s_PI H / 4 -> 0 <= xu < s_PX H / 4 -> 0 <= zu < s_PZ H / 4 ->
+  nth_error (dims_np H) (Z.to_nat (unit_index3 H iu xu zu)) = Some (iu, xu, zu).
+Proof.
+  intros W iu xu zu Hi Hx Hz. unfold dims_np, np_written_units. rewrite (np_regions_canon H W).
+  apply (canon_written_at H W). unfold in_ugrid. auto.
+Qed.
+Lemma sf_unit_at H : wf3 H = true -> forall iu xu zu, 0 <= iu < s_PI H / 4 -> 0 <= xu < s_PX H / 4 -> 0 <= zu < s_PZ H / 4 ->
+  nth_error (dims_sf H) (Z.to_nat (unit_index3 H iu xu zu)) = Some (iu, xu, zu).
+Proof.
+  intros W iu xu zu Hi Hx Hz. unfold dims_sf, sf_written_units. rewrite (sf_regions_canon H W).
+  apply (canon_written_at H W). unfold in_ugrid. auto.
+Qed.
+Lemma written_count H : wf3 H = true -> length (dims_np H) = Z.to_nat (data_units H) /\ length (dims_sf H) = Z.to_nat (data_units H).
+Proof.
+  intro W. split.
+  - rewrite <- (map_length (uidx H)), (np_unit_order H W), zrange_length. f_equal. lia.
+  - rewrite <- (map_length (uidx H)), (sf_unit_order H W), zrange_length. f_equal. lia.
+Qed.
+
+(* the data section the writers produce has exactly the size the specification derives from the header *)
+Lemma data_units_bytes H : s_ub3 H * data_units H = s_data_bytes3 H.
+Proof. unfold data_units, s_data_bytes3. ring. Qed.
+
+(* write-then-read, voxel by voxel *)
+Lemma voxel_fidelity H : wf3 H = true -> forall i x z, 0 <= i < s_nil H -> 0 <= x < s_nxl H -> 0 <= z < s_ns H ->
+  let k := unit_index3 H (i / 4) (x / 4) (z / 4) in
+  spec_cell3 H i x z = PUnit (s_ub3 H * k) (((i mod 4) * 4 + x mod 4) * 4 + z mod 4) /\
+  nth_error (dims_np H) (Z.to_nat k) = Some (i / 4, x / 4, z / 4) /\
+  nth_error (dims_sf H) (Z.to_nat k) = Some (i / 4, x / 4, z / 4) /\
+  (forall da db dc, 0 <= da < 4 -> 0 <= db < 4 -> 0 <= dc < 4 ->
+     let s := edge_src (s_nil H) (s_nxl H) (s_ns H) (4 * (i / 4) + da) (4 * (x / 4) + db) (4 * (z / 4) + dc) in
+     np_cell_src (s_nil H) (s_nxl H) (s_ns H) (s_bs0 H) (s_bs1 H) (s_bs2 H) (4 * (i / 4) + da) (4 * (x / 4) + db) (4 * (z / 4) + dc) = s /\
+     (forall minimal, sf_cell_src (s_nil H) (s_nxl H) (s_ns H) (s_bs0 H) (s_bs1 H) (s_bs2 H) minimal
+                        (4 * (i / 4) + da) (4 * (x / 4) + db) (4 * (z / 4) + dc) = s)) /\
+  edge_src (s_nil H) (s_nxl H) (s_ns H) i x z = (i, x, z).
+Proof.
+  intros W i x z Hi Hx Hz k. pose (F := wf3_facts H W).
+  destruct (f_PI H F) as (PI1 & _ & PI4 & _). destruct (f_PX H F) as (PX1 & _ & PX4 & _). destruct (f_PZ H F) as (PZ1 & _ & PZ4 & _).
+  assert (Gi : 0 <= i / 4 < s_PI H / 4) by (split; [apply Z.div_pos; lia | apply Z.div_lt_upper_bound; [lia|]; rewrite <- (exact_div (s_PI H) 4) by lia; lia]).
+  assert (Gx : 0 <= x / 4 < s_PX H / 4) by (split; [apply Z.div_pos; lia | apply Z.div_lt_upper_bound; [lia|]; rewrite <- (exact_div (s_PX H) 4) by lia; lia]).
+  assert (Gz : 0 <= z / 4 < s_PZ H / 4) by (split; [apply Z.div_pos; lia | apply Z.div_lt_upper_bound; [lia|]; rewrite <- (exact_div (s_PZ H) 4) by lia; lia]).
+  split; [reflexivity|]. split; [apply np_unit_at; assumption|]. split; [apply sf_unit_at; assumption|]. split.
+  - intros da db dc Ha Hb Hc s.
+    assert (R : 0 <= 4 * (i / 4) + da < s_PI H).
+    { pose proof (exact_div (s_PI H) 4 ltac:(lia) PI4). lia. }
+    split; [apply np_cell_src_edge; assumption|]. intro minimal. apply sf_cell_src_edge; try assumption; lia.
+  - unfold edge_src. f_equal; [f_equal|]; lia.
+Qed.
